@@ -52,6 +52,14 @@ def _progs(tier: str) -> List[Dict[str, Any]]:
     for n, k in enumerate(singles):
         add([["op", k]], "x", ["sum", "two_outputs", "tensor"][n % 3])
         add([["op", "linear:nn"], ["op", k], ["op", "neg"]], ["x", "emb_pos", "emb"][n % 3], "two_outputs" if n % 2 else "mse")
+    # chains whose members are each within rtol of their producer but cumulatively beyond it (order of comparison matters),
+    # and graphs holding different targets with one __name__ (operator.add / torch.add, operator.neg / torch.neg, ...)
+    for a, b in (("mul_1p2", "mul_1p2"), ("mul_1p3", "mul_1p3"), ("mul_1p2", "mul_1p3"), ("div_1p3", "div_1p3"), ("mul_1p3", "mul_1p2")):
+        add([["op", a], ["op", b], ["op", "reshape"]], "x", "sum")
+        add([["op", "linear:nn"], ["op", a], ["op", b], ["op", "neg"]], "x", "two_outputs")
+    for a, b in (("add_scalar", "torch_add_scalar"), ("neg", "torch_neg"), ("mul_scalar", "torch_mul_scalar"), ("torch_add_scalar", "add_scalar")):
+        add([["op", a], ["op", "tanh"], ["op", b]], "x", "sum")
+        add([["op", "linear:nn"], ["op", b], ["op", a]], "x", "tensor")
     # TorchDynamo names nodes after local variables: a compute node called `output`
     for n, k in enumerate(["linear:nn", "neg", "masked", "reshape", "rotate_half"]):
         out.append({"prog": {"items": [["op", k]], "first": "x", "sink": ["sum", "two_outputs", "tensor"][n % 3], "out_name": "output"},
